@@ -46,7 +46,7 @@ ASSUMPTIONS = [
     "qp.evolve(H, t): t is a scalar (never the broadcast argument) and not traced by jax.jit; Evolution documents that it 'may not be "
     "differentiable' and its has_generator / generator test the concrete value of the coefficient.",
 ]
-BUDGET = {"quick": {"examples": 240, "min_nontrivial": 40}, "thorough": {"examples": 24000, "shards": 16, "min_nontrivial": 500}}
+BUDGET = {"quick": {"examples": 240, "min_nontrivial": 40}, "thorough": {"examples": 1200, "shards": 16, "min_nontrivial": 200}}
 SHRINK_LISTS = ("ops", "meas")
 
 # ------------------------------------------------------------------------------------------------ gate pool
